@@ -207,6 +207,7 @@ func runC20(r *Run) {
 	} else {
 		r.Viol("C20.subdomains", fname(isd), "range scan", "IterateSubDomain no longer uses State.IterateRange", p.pos(isd.Pos()), nil)
 	}
+	checkOptionsValidated(r, "C20.options", "ValidateONS", 2)
 	r.Floor("C20.", 30)
 }
 
